@@ -23,8 +23,9 @@ LEVEL = "proof"
 MODULE = "Sqfs.Props.C15"
 REQUIRED = ["Sqfs.C15.ostream_transparent", "Sqfs.C15.ostream_transparent_single", "Sqfs.C15.ostream_flush_terminates",
             "Sqfs.C15.istream_transparent", "Sqfs.C15.truncated_is_error", "Sqfs.C15.process_data_meets_contract_partial",
-            "Sqfs.C15.backend_ostream_transparent", "Sqfs.C15.toy_library_meets_convention",
-            "Sqfs.C15.toy_encoder_meets_contract", "Sqfs.C15.toy_decoder_meets_contract", "Sqfs.C15.toy_decode_encode"]
+            "Sqfs.C15.backend_ostream_transparent", "Sqfs.C15.backend_istream_transparent", "Sqfs.C15.backend_truncated_is_error",
+            "Sqfs.C15.toy_library_meets_convention", "Sqfs.C15.toy_encoder_meets_contract", "Sqfs.C15.toy_decoder_meets_contract",
+            "Sqfs.C15.toy_decode_encode"]
 CODECS = ["gzip", "xz", "bzip2", "zstd"]
 MAGIC_LEN = {"gzip": 3, "xz": 6, "zstd": 4, "bzip2": 3}
 JOBS = int(os.environ.get("VERIF_JOBS", "3"))       # parallel tool runs (the machine may be shared)
@@ -899,7 +900,7 @@ def run(ctx):
         "bufsz": bufsz,
     })
     return ctx.finish(LEVEL, trusted_extra=[
-        "the four compression libraries are represented by the contract structures of Sqfs/Spec/XfrmContract.lean (assumed, exercised at tool level against reference decompressors: Python zlib/lzma/bz2, libzstd)",
+        "zlib, liblzma, libbz2 are represented by the library-level conventions LibEncContract/LibDecContract of Sqfs/Spec/XfrmContract.lean (assumed; exercised at tool level against reference decompressors: Python zlib/lzma/bz2), libzstd through zstd.c by EncContract/DecContract directly (the zstd loop's contract theorem is not proved; exercised by harness a' and against libzstd)",
         "modelled: lib/xfrm/src/istream.c, ostream.c (as written), the process_data loops of gzip.c/xz.c/bzip2.c/zstd.c (with fixes/C15-*.patch applied; the unpatched loops are Sqfs/Model/XfrmOld.lean)",
         "harness/h_c15.c (fake codec, scripted source, sink), harness/c15_zstd_ref.c, tools/checks/c15.py (generators, oracles)"],
         assumptions=["inputs shorter than the codec's magic number are not recognised as compressed by tar_open_stream and are read as a plain tar stream (out of scope here)",
